@@ -76,7 +76,19 @@ def generate(rng, run, tier):
     # avoid switch for known finding C11-deeply-nested-hint: hints nested 100+ levels deep appear only in a small, directed
     # fraction of the cases (J.gen() leaves the 'deep_*' atoms out unless asked)
     deep = rng.random() < 0.04
-    return {'mode': 'gram', 'hint': J.gen(rng, rng.choice([0, 1, 1, 2, 2, 3]), deep), 'other': J.gen(rng, rng.choice([0, 0, 1, 2])),
+    hint = J.gen(rng, rng.choice([0, 1, 1, 2, 2, 3]), deep)
+    # the second hint of a comparison: unrelated, or (half of the time) the same shape with one atom replaced
+    other = J.sibling(rng, hint) if rng.random() < 0.5 else J.gen(rng, rng.choice([0, 0, 1, 2]))
+    if rng.random() < 0.08:
+        # comparison focus: two hints of one family that has its own subhint code, over odd arguments
+        fam = rng.choice(['Literal', 'Literal', 'Callable1', 'CallableE', 'tuple2', 'tuple_var', 'Annotated_is', 'GenericK', 'Union', 'type'])
+        odd = ['v_list_types', 'v_dict', 'v_set', 'v_empty_list', 'v_3', 'v_true', 'v_enum_member', 'v_bytes', 'None', 'int', 'str',
+               'DataProto', 'NonRuntimeProto', 'T', 'Ts', 'P', 'Any', 'Never', 's_nosuch', 'AlRec', 'Literal_1', 'Literal_mixed']
+        hint = {'c': fam, 'k': [{'a': rng.choice(odd)} for _ in range(J.CTORS[fam][0])]}
+        other = {'c': fam, 'k': [{'a': rng.choice(odd)} for _ in range(J.CTORS[fam][0])]}
+        return {'mode': 'gram', 'hint': hint, 'other': other, 'api': rng.choice(['is_subhint_left', 'is_subhint_right', 'typehint_cmp']),
+                'obj': 'int1', 'draw': 0, 'gconf': None}
+    return {'mode': 'gram', 'hint': hint, 'other': other,
             'api': rng.choice(GRAM_APIS), 'obj': rng.choice(list(J.OBJECTS)), 'draw': rng.choice([0, 1, 7]),
             'gconf': rng.choice([None, None, 'tower', 'overrides', 'warn'])}
 
@@ -430,7 +442,7 @@ def _run_badhint(case):
 
 
 GRAM_APIS = ['decorate_param', 'decorate_return', 'is_bearable', 'die_if_unbearable', 'typehint_use', 'is_subhint_left',
-             'is_subhint_right', 'is_subhint_self', 'decorate_both']
+             'is_subhint_right', 'is_subhint_self', 'decorate_both', 'typehint_cmp']
 
 
 def _site(e):
@@ -459,7 +471,7 @@ def _run_gram(case):
     api = case['api']
     try:
         hint = J.build(case['hint'])
-        other = J.build(case['other']) if api in ('is_subhint_left', 'is_subhint_right') else None
+        other = J.build(case['other']) if api in ('is_subhint_left', 'is_subhint_right', 'typehint_cmp') else None
     except J.Unbuildable:
         probes['gram_unbuildable'] = 1
         return probes, None
@@ -487,7 +499,7 @@ def _run_gram(case):
             if attempt == 2:
                 try:
                     hint = J.build(case['hint'])
-                    other = J.build(case['other']) if api in ('is_subhint_left', 'is_subhint_right') else None
+                    other = J.build(case['other']) if api in ('is_subhint_left', 'is_subhint_right', 'typehint_cmp') else None
                 except J.Unbuildable:
                     break
             try:
@@ -519,6 +531,15 @@ def _run_gram(case):
                         pass        # (TypeError is what Python prescribes for hash() of a wrapper around an unhashable hint)
                     th.is_ignorable
                     th.is_bearable(x)
+                elif api == 'typehint_cmp':
+                    ta, tb = door.TypeHint(hint), door.TypeHint(other)
+                    ta == tb
+                    ta != tb
+                    ta <= tb
+                    ta < tb
+                    ta >= tb
+                    ta > tb
+                    ta.is_superhint(tb)
                 elif api == 'is_subhint_left':
                     door.is_subhint(hint, other)
                 elif api == 'is_subhint_right':
@@ -589,7 +610,7 @@ def shrink(case, violation):
         from sim import hintjunk as J
         for t in J.shrinks(case['hint']):
             yield dict(case, hint=t)
-        if case['api'] in ('is_subhint_left', 'is_subhint_right'):
+        if case['api'] in ('is_subhint_left', 'is_subhint_right', 'typehint_cmp'):
             for t in J.shrinks(case['other']):
                 yield dict(case, other=t)
             if case['other'] != {'a': 'int'}:
